@@ -1,5 +1,5 @@
 (* C13 — the validating parser raises exactly on nesting / attribute errors, else builds the same tree. *)
-From AHP Require Import Model.Base Model.Str Model.Attr Model.Dom Model.Serial Model.Parser Gen.Tables Proofs.DomProofs Proofs.ParserProofs.
+From AHP Require Import Model.Base Model.Str Model.Attr Model.Dom Model.Serial Model.Parser Gen.Tables Proofs.DomProofs Proofs.ParserProofs Proofs.ValidatorProofs.
 
 (* the three documented exceptions, at the token that causes them *)
 Theorem C13_invalid_attribute_name : forall s n a selfc, forallb (fun kv => valid_attr_name (fst kv)) a = false ->
@@ -30,3 +30,14 @@ Example C13_ex :
   /\ feed PValidating [TStart "a" [("1x", None)] false] [] = PRaise XInvalidAttrName
   /\ (exists s, feed PValidating [TStart "a" [] false; TStart "br" [] false; TEnd "a"] [] = POk s).
 Proof. vm_compute. repeat split; eauto. Qed.
+
+(* exactness: the validating parser is the plain parser plus a pure classifier verr on (state, token); a run raises a validation
+   error exactly when some token is classified in the state reached without an earlier error, and raises that token's error *)
+Theorem C13_step_classified : forall s t, pstep PValidating s t = match verr s t with Some e => PRaise e | None => pstep PPlain s t end.
+Proof. exact validating_step_classified. Qed.
+Theorem C13_run_classified : forall ts s, prun PValidating s ts = vrun s ts.
+Proof. exact validating_run_classified. Qed.
+Theorem C13_raises_exactly : forall ts s e, e <> XMultipleRoot ->
+  (prun PValidating s ts = PRaise e <-> exists pre t post s', ts = pre ++ t :: post /\ vrun s pre = POk s' /\ verr s' t = Some e).
+Proof. exact validating_raises_iff. Qed.
+
